@@ -191,6 +191,16 @@ func checkC14(c *Ctx) {
 			c.runSketchGen(sim, mx, c.pick(6, 12), "simulated histories with reads and copies, "+variant)
 		}
 	}
+	// derived sketches: the result of ChangeMapping (a new sketch in another slot, both variants, scale 1 and others)
+	// and its source are independent afterwards, like a copy and its original
+	cmInit := []SketchInit{{"exact", 1, ex0, ex0}, {"exact", 1, ex0, ex0}, {"plain", 2, ex0, ex0}}
+	mxc := &SketchMatrix{Mappings: [][]MappingSpec{{{"log", 0.01}, {"cubic", 0.02}}, {{"linear", 0.05}, {"log", 0.01}}}, Reals: exactRealKinds,
+		Modes: []string{"every"}, Aspects: map[string]bool{"pure": true}, MidKeysOnly: true}
+	cmTree := &SketchGen{Init: cmInit[:2], Tokens: []int{11, -12}, Weights: []int{6}, Ops: []string{"AddW", "ChangeMap", "Clear", "Read"}, Q: 4, QDen: 8, Depth: c.pick(3, 4)}
+	c.runSketchGen(cmTree, mxc, c.pick(4, 8), "exhaustive tree with unit/mapping changes and reads")
+	cmSim := &SketchGen{Init: cmInit, Tokens: append(append([]int{}, tokBins3...), 0, 2), Weights: []int{0, 2, 4, 8}, Factors: [][2]int{{1, 2}, {2, 1}},
+		Ops: []string{"Add", "AddW", "Merge", "Copy", "Clear", "Reweight", "ChangeMap", "Read"}, Q: 4, QDen: 8, Depth: c.pick(10, 20), Simulate: true, Num: c.pick(500, 6000)}
+	c.runSketchGen(cmSim, mxc, c.pick(6, 12), "simulated histories with unit/mapping changes and reads")
 }
 
 // C15 - a cleared sketch or store is indistinguishable from a new one
